@@ -123,7 +123,18 @@ def _exec_chunk(items):
             db = PyDBML().parse(print_doc(it['doc'], None, {}), **kw)
         else:
             db = PyDBML.parse(print_doc(it['doc'], None, {}), **kw)
+        if it['route'] == 'built':
+            # one Note OBJECT handed to several owners through the public setter (tables carrying the same note text): whatever
+            # that means for the note's owner link, RENDERING must not change it
+            seen_notes = {}
+            for t in db.tables:
+                if t.note and t.note.text:
+                    if t.note.text in seen_notes:
+                        t.note = seen_notes[t.note.text]
+                    else:
+                        seen_notes[t.note.text] = t.note
         s0 = pj.project_db(db)
+        links0 = pj.project_links(db)
 
         def obj(el):
             k, i = el['k'], el['i']
@@ -188,11 +199,28 @@ def _exec_chunk(items):
                 for name, text in texts:
                     if text:
                         counts.append(['%s.%s' % (name, kind), whole.count(text), same[text]])
+        if not detached:
+            # ... and every rendering of the database and of each table once more before the model is looked at again
+            for kind in ('sql', 'dbml'):
+                for o in [db] + list(reversed(db.tables)):          # (the first table last: not the order the database renders them in)
+                    try:
+                        getattr(o, kind)
+                    except Exception:
+                        pass
         s_end = pj.project_db(db)
+        links_end = pj.project_links(db)
+        moved_links = sorted(k for k in links0 if links0[k] != links_end.get(k)) if not detached else []
         later = ''
         if not detached and it['route'] == 'built':
             # the same edits on this database (its renderings were evaluated above) and on a twin that was never rendered
             twin = builder.build(it['model'], **kw)
+            seen_notes = {}
+            for t in twin.tables:                  # the same sharing of Note objects as in the database under test
+                if t.note and t.note.text:
+                    if t.note.text in seen_notes:
+                        t.note = seen_notes[t.note.text]
+                    else:
+                        seen_notes[t.note.text] = t.note
             for d in (db, twin):
                 for t in d.tables:
                     t.name = (t.name or '') + '_later'
@@ -216,7 +244,7 @@ def _exec_chunk(items):
                     if not later and txt(a) != txt(b):
                         later = '%s.%s' % (name, kind)
         out.append({'tid': it['tid'], 'model': it['model'], 'cfg': cfg, 'sd': it['seed'], 'obs': obs, 's0': s0,
-                    's_end': s_end, 'counts': counts, 'later': later})
+                    's_end': s_end, 'counts': counts, 'later': later, 'linksmoved': moved_links})
     return out
 
 
